@@ -108,6 +108,8 @@ def run(chk):
                                                             L.mk_mod(1e22, 1), L.mk_mod(-0.0, 1), L.mk_mod(1e-7, 1)]),
     ]
     objs += edge
+    float_objs = L.float_annotations(rng, 150 if quick else 3000, max_sig=17)
+    objs += float_objs
     ser_cases = [(o, plus) for o in objs for plus in (False, True)]
     chk.correspond('serialize', DRV, ser_cases,
                    lambda c: f'serialize\t{int(c[1])}\t{L.dump_any(c[0])}',
@@ -301,6 +303,20 @@ def run(chk):
         return None if gen_by_text[c[0]] == '1' else 'grammar-derived object is rejected by the Lean predicate Canon: ' + c[1]
 
     chk.oracle('generator_is_canonical', cases, o_gen_canon, key_fn=lambda c: c[0])
+
+    # ------------------------------------------------------------------ oracle: float values of any precision survive, both include_plus
+    def o_float_rt(c):
+        d, plus = c
+        a = L.undump_any(d)
+        t = pt.serialize(a, plus)
+        b = pt.parse(t)
+        if L.dump_any(b) != d or not (b == a):
+            return (f'serialize(a, include_plus={plus}) = {t!r}; parsing it gives {L.dump_any(b)} instead of {d}: a modification value '
+                    f'is changed by writing it')
+        return None
+
+    chk.oracle('float_value_roundtrip', [(L.dump_any(o), p) for o in float_objs for p in (False, True)], o_float_rt,
+               key_fn=lambda c: c[0] + str(c[1]))
 
     # ------------------------------------------------------------------ oracle: no state leaks between parse calls
     # sequences on the SAME string: parse -> edit the result in place at every container level -> parse again;
